@@ -2,7 +2,7 @@
    pinned by [Check name : statement] and followed by [Print Assumptions]. *)
 From Coq Require Import Sorting.Sorted Sorting.Permutation Strings.String Strings.Ascii.
 From RM Require C09.Model C09.Grammar C09.Driver.
-From RM Require Import C08.SymText C08.SymTextC.
+From RM Require Import C08.SymText C08.SymTextC C08.SymTextCfi.
 From RM Require Import C08.Model C08.Proofs C08.IndexProofs C08.WinModel C08.WinProofs C08.Driver Gen.C08Tables C08.Tie C08.EndToEnd C08.StreamRead C08.Unified.
 Open Scope Z_scope.
 
@@ -504,6 +504,28 @@ Theorem c08_text_func_complete :
         C09.Grammar.sf_psize f = C09.Grammar.fr_psize f0 /\ C09.Grammar.sf_name f = C09.Grammar.fr_name f0.
 Proof. exact text_func_complete_arith. Qed.
 Print Assumptions c08_text_func_complete.
+
+(* the same for `cfi_stack_info` (C08/SymTextCfi.v): a STACK CFI INIT line is never taken for a sub-line - in particular
+   not for a `STACK CFI` delta line of the open group: after "STACK CFI " comes "INIT", which is no hex address - so an
+   isolated STACK CFI INIT line is found at every address of its range, with its init rule and size *)
+Theorem c08_text_cfi_complete :
+  forall lines tail sch p s,
+  Forall (fun l => C09.Grammar.cllen l <= C09.Model.HALF_CAP) lines ->
+  C09.Driver.drive_c lines tail sch = Ret (C09.Model.ROk p, s) ->
+  exists t, C09.Driver.table_of (C09.Model.ROk p) = Ret (Some t) /\
+    forall L1 s0 L2 c0 x,
+      lines = L1 ++ s0 :: L2 -> C09.Grammar.line_top s0 = Some (C09.Grammar.ICfiInit c0) ->
+      let a := C09.Grammar.cr_addr (C09.Grammar.ci_init c0) in let sz := C09.Grammar.ci_size c0 in
+      sz <> 0 -> a + sz < two64 -> a <= x < a + sz ->
+      (forall s' c', In s' (L1 ++ L2) -> C09.Grammar.line_top s' = Some (C09.Grammar.ICfiInit c') ->
+         C09.Grammar.ci_size c' = 0 \/
+         two64 <= C09.Grammar.cr_addr (C09.Grammar.ci_init c') + C09.Grammar.ci_size c' \/
+         C09.Grammar.cr_addr (C09.Grammar.ci_init c') + C09.Grammar.ci_size c' <= a \/
+         a + sz <= C09.Grammar.cr_addr (C09.Grammar.ci_init c')) ->
+      exists c, rm_get (C09.Grammar.t_cfi t) x = Some c /\
+        C09.Grammar.sc_init c = C09.Grammar.ci_init c0 /\ C09.Grammar.sc_size c = sz.
+Proof. exact text_cfi_complete_arith. Qed.
+Print Assumptions c08_text_cfi_complete.
 
 (* non-vacuity: a text with two overlapping FUNCs (the second is dropped), line records (one empty, one conflicting),
    a STACK CFI INIT record, two overlapping STACK WIN records (the first is shortened) and a FUNC reaching past the
